@@ -66,10 +66,18 @@ impl Driver for HDriver {
     fn run(&self, rt: &Runtime) -> std::io::Result<()> {
         let mut armed: u64 = 0;
         let mut last_epoch: u64 = u64::MAX;
+        // consecutive polls without the run queue ever draining
+        let mut busy: u64 = 0;
         loop {
             match rt.poll() {
                 PollResult::Ready => return Ok(()),
                 PollResult::PollAgain => {
+                    busy += 1;
+                    // a self-waking task while the controller sleeps on a real timer (C20): do
+                    // not burn a core, the other scenario threads need it to keep their schedule
+                    if busy > 20_000 && busy % 64 == 0 && QUIESCE.with(|q| q.borrow().is_none()) {
+                        std::thread::sleep(Duration::from_millis(1));
+                    }
                     let n = POLLS.with(|p| {
                         let n = p.get() + 1;
                         p.set(n);
@@ -109,6 +117,7 @@ impl Driver for HDriver {
                     }
                 }
                 PollResult::Pending => {
+                    busy = 0;
                     POLLS.with(|p| p.set(p.get() + 1));
                     // a cross-thread wake-up may already be pending
                     {
